@@ -125,6 +125,15 @@ func values(r *mc.Run) []V3 {
 			all = append(all, V3{e, u, ""}, V3{e, u, "10"}, V3{e, u, "100"})
 		}
 	}
+	// alphabet audit: values a change introduced into the code (strings, characters, numbers)
+	for _, t := range append(append(gen.AuditStrings(gen.Versionish, 8), gen.AuditChars(gen.Versionish, 3)...), gen.AuditIntStrings(0, 1<<62, 9)...) {
+		for _, e := range []uint{0, 1} {
+			all = append(all, V3{e, t, ""}, V3{e, "1" + t, ""}, V3{e, "1" + t + "1", "1"}, V3{e, "1", t}, V3{e, "1.0", "1" + t}, V3{e, t, t})
+		}
+	}
+	for _, v := range gen.AuditInts(0, 1<<62, 6) {
+		all = append(all, V3{uint(v), "1", ""}, V3{uint(v), "1", "1"})
+	}
 	return all
 }
 
